@@ -144,6 +144,22 @@ def run_mat(ctx, p):
             return
         samples.append((s, M[:3, :3], M[:3, 3] if se else None))
     judge_samples(ctx, sig, R0, R1, t0, t1, samples, False, what)
+    if api == 'base.trinterp' and p.get('T2') is not None:
+        # a trajectory generator keeps its start / goal in two buffers and refills them: the second segment is answered from what
+        # the buffers hold now, not from what the same two objects held during the first segment
+        T2, T3 = np.asarray(p['T2'], dtype=np.float64), np.asarray(p['T3'], dtype=np.float64)
+        try:
+            B0, B1 = np.array(T0), np.array(T1)
+            base.trinterp(B0, B1, 0.3)
+            B0[...] = T2
+            B1[...] = T3
+            s_ = p['svals'][len(p['svals']) // 2]
+            got = np.asarray(base.trinterp(B0, B1, s_), dtype=np.float64)
+            want = np.asarray(base.trinterp(np.array(T2), np.array(T3), s_), dtype=np.float64)
+            ctx.judge('sample', float(np.max(np.abs(got - want))) <= TOL * max([1.0] + [float(np.linalg.norm(T_[:3, 3])) for T_ in (T2, T3) if T_.shape == (4, 4)]), dict(sig, kind='answer_depends_on_earlier_call'),
+                      lambda: 'trinterp on two buffers refilled in place (same objects, new values) at s=%r: %s; fresh arrays give %s' % (s_, core.short(got, 200), core.short(want, 200)))
+        except Exception as e:
+            ctx.bad('sample', dict(sig, kind='raised', exc=type(e).__name__), 'trinterp on refilled buffers raised %r' % e)
     for s in p.get('bad_s', []):
         expect_raise(ctx, dict(sig, s='below' if s < 0 else 'above'), lambda: call(s), lambda: '%s at s=%r' % (what(), s))
     ctx.nontrivial(api, with_start, [float('%.9g' % v) for v in np.r_[T0.reshape(-1), T1.reshape(-1)]])
@@ -377,6 +393,10 @@ def run(ctx):
             ws = True
         p = dict(api=['base.trinterp', 'pose.interp'][rng.integers(2)], T0=T0, T1=T1, with_start=ws, svals=svals(rng),
                  bad_s=[BAD_S[rng.integers(len(BAD_S))]])
+        if p['api'] == 'base.trinterp' and ws and rng.random() < 0.5:
+            Ra, Rb = pair3(rng)
+            p['T2'] = ref.rt2tr(Ra, gen.transl(rng, hi=1e3)) if se else Ra
+            p['T3'] = ref.rt2tr(Rb, gen.transl(rng, hi=1e3)) if se else Rb
         drive(RUNNERS, ctx, 'mat', p)
         if ctx.ncases % 499 == 1:
             ctx.sample(dict(case='mat', **{k: v for k, v in p.items()}), limit=4)
